@@ -86,6 +86,12 @@ def plan(tier, seed):
               cond=float(10 ** rng.uniform(2.5, 3.5)), updates=int(pick(rng, [130, 220])),
               bmode=pick(rng, ["plain", "b-is-x", "b-overwritten"]),
               A=pick(rng, ["linop", "func"]), P=pick(rng, ["none", "none", "jacobi"]))
+    # an unknown of more than 2**22 entries in Fortran order (a large volume handed over as it
+    # was read): three distinct eigenvalues, so three updates reach the solution - written
+    # into the caller's array
+    for i in range(1 if quick else 3):
+        P.add("cg-huge", shape=pick(rng, [[2100, 2050], [176, 160, 160]]),
+              order=pick(rng, ["F", "F", "T"]), cplx=bool(rng.random() < 0.5), timeout=900)
     for i in range(80 if quick else 1200):
         P.add("breakdown", n=int(rng.integers(1, 9)), cplx=bool(rng.random() < 0.5),
               kind=pick(rng, ["negdef", "indef", "singular", "zero"]),
@@ -683,7 +689,41 @@ def run_long(case):
     return held(sig, {"final_rel_err": e_prev / e0, "residual_dev": worst_r}, checks, True)
 
 
+def run_huge(case):
+    import sigpy as sp
+    rng = rng_for(case)
+    shape = case["shape"]
+    dt = np.complex64 if case["cplx"] else np.float64
+    ev = np.array([1.0, 2.5, 4.0])
+    d = ev[rng.integers(0, 3, shape)].astype(np.float32 if case["cplx"] else np.float64)
+    xs = crandn(rng, shape, dt)
+    b = (d * xs).astype(dt)
+    if case["order"] == "F":
+        x = np.zeros(shape, dt, order="F")
+    else:
+        x = np.zeros(shape[::-1], dt).T
+    sig = "cg-huge|%s|%s|%s" % ("x".join(map(str, shape)), case["order"], dt.__name__)
+    wit = dict(case)
+    alg = sp.alg.ConjugateGradient(lambda v: d * v, b, x, max_iter=3, tol=0)
+    k = 0
+    while not alg.done():
+        alg.update()
+        k += 1
+    if alg.x is not x:
+        return violated(sig, "alg.x is no longer the caller's array", wit, mech="not-in-place")
+    err = nrm(x - xs) / nrm(xs)
+    tol = 1e-9 if dt == np.float64 else 1e-3
+    if not err <= tol:
+        return violated(sig, "a diagonal system with three distinct eigenvalues is not solved "
+                        "after three updates: relative error %.3g in the caller's %s-ordered "
+                        "array of %d entries (%d updates)" % (err, case["order"], x.size, k), wit,
+                        mech="huge-not-solved", obs={"err": err})
+    return held(sig, {"err": err, "entries": int(x.size)}, 1, True)
+
+
 def run_case(case):
+    if case["gen"] == "cg-huge":
+        return run_huge(case)
     if case["gen"] == "cg-long":
         return run_long(case)
     if case["gen"] == "cg-fault":
